@@ -2299,13 +2299,21 @@ class AstEval:
 class EvalExceptionFormatter:
     """Format exceptions using pyscript-aware traceback frames."""
 
-    def __init__(self, exc: BaseException) -> None:
+    def __init__(self, exc: BaseException, frame_state: dict | None = None) -> None:
         """Initialize exception formatter state."""
         self.exc = exc
 
         self.current_func: str | None = None
         self.current_code_list: list[str] | None = None
         self.current_filename: str | None = None
+        # interpreter frame -> (function, source, filename) that was executing in it
+        self.frame_state: dict = dict(frame_state or {})
+        # set when a new function call starts, so its frame isn't merged with the caller's
+        self.new_call: bool = False
+        tb = exc.__traceback__
+        if frame_state and tb is not None and tb.tb_frame in frame_state:
+            # a chained exception was caught inside a function of the outer traceback
+            self.current_func, self.current_code_list, self.current_filename = frame_state[tb.tb_frame]
         self.last_eval_frame: traceback.FrameSummary | None = None
         self.lineno: int = 1
         self.col_offset: int = 0
@@ -2317,10 +2325,10 @@ class EvalExceptionFormatter:
         self.chained_exc: EvalExceptionFormatter | None = None
         if exc.__cause__ is not None:
             self.chained_msg = traceback._cause_message
-            self.chained_exc = EvalExceptionFormatter(exc.__cause__)
+            self.chained_exc = EvalExceptionFormatter(exc.__cause__, self.frame_state)
         elif exc.__context__ is not None and not exc.__suppress_context__:
             self.chained_msg = traceback._context_message
-            self.chained_exc = EvalExceptionFormatter(exc.__context__)
+            self.chained_exc = EvalExceptionFormatter(exc.__context__, self.frame_state)
 
     def format(self) -> list[str]:
         """Return formatted traceback lines for this exception."""
@@ -2354,6 +2362,7 @@ class EvalExceptionFormatter:
                         self.current_func = eval_func.get_name()
                         self.current_code_list = eval_func.code_list
                         self.current_filename = eval_func.global_ctx.get_file_path()
+                        self.new_call = True
                 elif code.co_qualname == AstEval.call_func.__qualname__ and self.current_func is None:
                     self.current_func = frame.f_locals.get("func_name", None)
                 elif code.co_qualname == AstEval.parse.__qualname__ and isinstance(self.exc, SyntaxError):
@@ -2380,6 +2389,7 @@ class EvalExceptionFormatter:
                             self.end_col_offset = getattr(val, "end_col_offset", self.col_offset)
                             self.ast_frame(ctx)
                             break
+                self.frame_state[frame] = (self.current_func, self.current_code_list, self.current_filename)
             else:
                 self.real_frame(current_tb)
 
@@ -2411,11 +2421,17 @@ class EvalExceptionFormatter:
         )
 
         last_frame = self.stack[-1] if self.stack else None
-        if last_frame and new_frame.filename == last_frame.filename and new_frame.name == last_frame.name:
+        if (
+            last_frame
+            and not self.new_call
+            and new_frame.filename == last_frame.filename
+            and new_frame.name == last_frame.name
+        ):
             # Replace with more detailed (deeper) data
             self.stack[-1] = new_frame
         else:
             self.stack.append(new_frame)
+        self.new_call = False
         self.last_eval_frame = new_frame
 
     def real_frame(self, tb: TracebackType) -> None:
